@@ -497,7 +497,7 @@ var rR10 = RuleRef{Name: "R10", Doc: "lossless carrier: the replicated proposal 
 	}
 	c.Count("R10_proposal_fills", n)
 	c.Min("R10_proposal_fills", 1)
-	if ap := c.P.Func("server", "handleClusterCommits"); ap != nil {
+	if ap := c.applyLoop(); ap != nil {
 		for _, b := range ap.Blocks {
 			for _, in := range b.Instrs {
 				call, ok := in.(*ssa.Call)
@@ -794,32 +794,65 @@ var rR11 = RuleRef{Name: "R11", Doc: "fragmentation independence, structural par
 
 // R12s: a torn WAL tail is repaired on reopen.
 var rR12s = RuleRef{Name: "R12s", Doc: "sibling agreement on the WAL error protocol: the function that replays the WAL at start-up handles io.ErrUnexpectedEOF from ReadAll by closing, calling wal.Repair and reopening (as etcdserver's openWALFromSnapshot does) instead of treating it as fatal", Run: func(c *C) {
-	// the function that reads the WAL back at start-up: the raftexample function that calls (*wal.WAL).ReadAll
-	var fn *ssa.Function
-	for _, f := range c.P.allFuncs("raftexample") {
-		for _, b := range f.Blocks {
-			for _, in := range b.Instrs {
-				if ci, ok := in.(ssa.CallInstruction); ok && callName(ci) == "ReadAll" {
-					if cf := callee(ci); cf != nil && cf.Signature.Recv() != nil && namedOf(cf.Signature.Recv().Type()) == "WAL" {
-						fn = f
+	// the function that reads the WAL back at start-up: the raftexample function that calls (*wal.WAL).ReadAll, or, when
+	// the read sits in a helper that merely hands the error on, the function that receives that helper's error
+	isReadAll := func(ci ssa.CallInstruction) bool {
+		if callName(ci) != "ReadAll" {
+			return false
+		}
+		cf := callee(ci)
+		return cf != nil && cf.Signature.Recv() != nil && namedOf(cf.Signature.Recv().Type()) == "WAL"
+	}
+	readers := map[*ssa.Function]bool{} // functions that reach ReadAll (depth <= 2)
+	for iter := 0; iter < 3; iter++ {
+		for _, f := range c.P.allFuncs("raftexample") {
+			for _, b := range f.Blocks {
+				for _, in := range b.Instrs {
+					if ci, ok := in.(ssa.CallInstruction); ok {
+						if isReadAll(ci) || (callee(ci) != nil && readers[callee(ci)]) {
+							readers[f] = true
+						}
 					}
 				}
 			}
 		}
 	}
-	if fn == nil {
-		c.Undecided("R12s", "the raftexample function that calls (*wal.WAL).ReadAll")
-		return
+	readsWAL := func(ci ssa.CallInstruction) bool {
+		return isReadAll(ci) || (callee(ci) != nil && readers[callee(ci)])
+	}
+	// among them, the one that decides what to do about the error: it tests an error that comes from a WAL read
+	var fn *ssa.Function
+	for f := range readers {
+		tests := false
+		for _, b := range f.Blocks {
+			for _, s2 := range b.Succs {
+				if !IsErrEdge(b, s2) {
+					continue
+				}
+				cond, _, _ := branchCond(b, s2)
+				bo := cond.(*ssa.BinOp)
+				for _, side := range []ssa.Value{bo.X, bo.Y} {
+					for _, call := range errSourceCalls(side) {
+						if readsWAL(call) {
+							tests = true
+						}
+					}
+				}
+			}
+		}
+		if tests && (fn == nil || f.String() < fn.String()) {
+			fn = f
+		}
 	}
 	var repair, readAll ssa.Instruction
 	cmpEOF := false
 	for _, b := range fn.Blocks {
 		for _, in := range b.Instrs {
 			if ci, ok := in.(ssa.CallInstruction); ok {
-				switch callName(ci) {
-				case "Repair":
+				if callName(ci) == "Repair" {
 					repair = in
-				case "ReadAll":
+				}
+				if readsWAL(ci) {
 					readAll = in
 				}
 			}
@@ -839,7 +872,7 @@ var rR12s = RuleRef{Name: "R12s", Doc: "sibling agreement on the WAL error proto
 	if repair != nil {
 		retry = reachesBefore(repair, func(in ssa.Instruction) bool {
 			ci, ok := in.(ssa.CallInstruction)
-			return ok && callName(ci) == "ReadAll"
+			return ok && readsWAL(ci)
 		}, nil)
 	}
 	c.Add("R12s", fnName(fn), "a torn tail is repaired (wal.Repair) and the WAL is read again", fn.Pos(), repair != nil && retry, "wal.Repair must be called and followed by another ReadAll")
@@ -913,7 +946,7 @@ var rR18 = RuleRef{Name: "R18", Doc: "the apply loop cannot block: every executo
 // R23s: connection goroutines never write shared Manager state.
 var rR23s = RuleRef{Name: "R23s", Doc: "per-connection selection: no code reachable from a connection handler or the apply loop stores to a field of the shared Manager (the selected database lives in per-connection state); every Manager database slot is a distinct fresh MemDb", Run: func(c *C) {
 	roots := c.connHandlers()
-	if ap := c.P.Func("server", "handleClusterCommits"); ap != nil {
+	if ap := c.applyLoop(); ap != nil {
 		roots = append(roots, ap)
 	}
 	reach := c.reachableFirstParty(roots)
@@ -1436,14 +1469,51 @@ var rR1t = RuleRef{Name: "R1t", Doc: "termination of the glob matcher: every sel
 var rR17cb = RuleRef{Name: "R17cb", Doc: "the table that maps proposal ids to waiting connections is shared by all connection goroutines and the apply goroutine: every access to its map holds its mutex, and nothing is sent on a result channel while the mutex is held", Run: func(c *C) {
 	la := c.lockAn()
 	n := 0
+	// the rendezvous table is found by its shape: a struct of package server that holds a map to channels and a mutex
+	isTableMap := func(fa *ssa.FieldAddr) (string, bool) {
+		nt, ok := derefNamed(fa.X.Type())
+		if !ok || nt.Obj().Pkg() == nil || !strings.HasSuffix(nt.Obj().Pkg().Path(), "/server") {
+			return "", false
+		}
+		st, ok := nt.Underlying().(*types.Struct)
+		if !ok {
+			return "", false
+		}
+		mt, ok := st.Field(fa.Field).Type().Underlying().(*types.Map)
+		if !ok {
+			return "", false
+		}
+		if _, isChan := mt.Elem().Underlying().(*types.Chan); !isChan {
+			return "", false
+		}
+		for i := 0; i < st.NumFields(); i++ {
+			if strings.HasSuffix(st.Field(i).Type().String(), "sync.Mutex") || strings.HasSuffix(st.Field(i).Type().String(), "sync.RWMutex") {
+				return nt.Obj().Name() + "." + st.Field(i).Name(), true
+			}
+		}
+		return "", false
+	}
 	for _, fn := range c.P.allFuncs("server") {
 		var bad []string
 		touched := false
 		lf := la.flow(fn)
+		muClass := ""
+		for _, b := range fn.Blocks {
+			for _, in := range b.Instrs {
+				if fa, ok := in.(*ssa.FieldAddr); ok {
+					if cl, ok := isTableMap(fa); ok {
+						muClass = cl
+					}
+				}
+			}
+		}
 		for _, b := range fn.Blocks {
 			for _, in := range b.Instrs {
 				fa, ok := in.(*ssa.FieldAddr)
-				if ok && namedOf(fa.X.Type()) == "callbackTable" && fieldName(fa) == "m" {
+				if ok {
+					_, ok = isTableMap(fa)
+				}
+				if ok {
 					if al, isAl := fa.X.(*ssa.Alloc); isAl && al.Heap {
 						continue
 					}
@@ -1452,18 +1522,18 @@ var rR17cb = RuleRef{Name: "R17cb", Doc: "the table that maps proposal ids to wa
 					held, _ := lf.Held(in)
 					okHeld := false
 					for _, h := range held {
-						if h.Class == "callbackTable.mu" {
+						if h.Class == muClass {
 							okHeld = true
 						}
 					}
 					if !okHeld {
-						bad = append(bad, c.pos(in.Pos())+": map accessed without callbackTable.mu")
+						bad = append(bad, c.pos(in.Pos())+": map accessed without "+muClass)
 					}
 				}
 				if _, isSend := in.(*ssa.Send); isSend {
 					for _, h := range lf.MayHeld(in) {
-						if h.Class == "callbackTable.mu" {
-							bad = append(bad, c.pos(in.Pos())+": channel send while holding callbackTable.mu")
+						if strings.HasSuffix(h.Class, ".mu") && (muClass == "" || h.Class == muClass) && strings.Contains(h.Class, "Table") {
+							bad = append(bad, c.pos(in.Pos())+": channel send while holding "+h.Class)
 						}
 					}
 				}
@@ -1501,11 +1571,23 @@ func rejectedStrings(fns []*ssa.Function, out map[string]bool) {
 	}
 }
 
-// comparedStrings collects the string constants that the given functions compare a value with (==, != or switch cases).
+// comparedStrings collects the string constants that the given functions compare a value with (==, != or switch cases,
+// or membership in a package-level table with constant string keys).
 func comparedStrings(fns []*ssa.Function, out map[string]bool) {
 	for _, fn := range fns {
 		for _, b := range fn.Blocks {
 			for _, in := range b.Instrs {
+				if lk, ok := in.(*ssa.Lookup); ok && simC != nil {
+					if g, _ := lookupOfGlobalMap(lk); g != nil {
+						if ents, ok := simC.globalMapInit(g); ok {
+							for _, e := range ents {
+								if ks, ok := constString(e.Key); ok {
+									out[ks] = true
+								}
+							}
+						}
+					}
+				}
 				if bo, ok := in.(*ssa.BinOp); ok && (bo.Op == token.EQL || bo.Op == token.NEQ) {
 					for _, side := range []ssa.Value{bo.X, bo.Y} {
 						if s, ok := constString(side); ok {
@@ -1607,6 +1689,27 @@ func simulateFor(fn *ssa.Function, str string, visit func(ret *ssa.Return, eval 
 						}
 					}
 				}
+			case *ssa.Lookup, *ssa.Extract:
+				// membership in a package-level set: m[tested] / _, ok := m[tested]
+				if g, key := lookupOfGlobalMap(x); g != nil && simC != nil {
+					if _, isConst := key.(*ssa.Const); !isConst {
+						if ents, ok := simC.globalMapInit(g); ok {
+							ex, isEx := x.(*ssa.Extract)
+							for _, e := range ents {
+								if ks, ok := constString(e.Key); ok && ks == str {
+									if isEx && ex.Index == 1 {
+										return true, true
+									}
+									if k, ok := e.Val.(*ssa.Const); ok && k.Value != nil && isBoolType(k.Type()) {
+										return k.Value.ExactString() == "true", true
+									}
+									return false, false
+								}
+							}
+							return false, true // not a member: zero value / ok == false
+						}
+					}
+				}
 			case *ssa.Call:
 				// a boolean predicate helper applied to the tested value
 				if cf := x.Call.StaticCallee(); cf != nil && cf != fn && firstParty(cf) && simDepth < 3 {
@@ -1697,6 +1800,9 @@ func rejectsFor(fn *ssa.Function, str string) bool {
 
 
 var simDepth int
+
+// simC gives the symbolic evaluator access to the program (initialisers of package-level tables).
+var simC *C
 
 // predicateFalse: the boolean function answers false on every path for "the tested value equals str".
 func predicateFalse(fn *ssa.Function, str string) (bool, bool) {
